@@ -56,7 +56,8 @@ TEXT = {
   "design_ref": "§3 C02",
   "note": "Hash functions are parameters; determinism of the Go VM itself is correspondence (multi-node) + AST fact: in the "
           "node-level model the VM is a parameter, and schedule independence GIVEN a deterministic VM is a theorem. "
-          "Rollback / side chains are outside the node-level model (C06, C16).",
+          "Rollback / side chains: Props/C06Reorg.lean over Model/NodeReorg.lean (the same node with the whole InsertChain as its "
+          "delivery) - equal current chains give equal ledgers and equal acceptance of honest momentums whatever was abandoned before.",
   "technique": "Lean 4 refinement corollaries + node-level state-machine invariant and schedule-independence proof + "
                "regenerated AST facts + multi-node differential replay",
  },
